@@ -48,6 +48,12 @@ type VerifTSSItem struct {
 func VerifSnapshotTSS() (heap []VerifTSSItem, mapLen int) {
 	heap = make([]VerifTSSItem, len(tssQ))
 	for i, it := range tssQ {
+		if it == nil {
+			// transient state inside a heap operation of a goroutine that is parked at a
+			// yield (only seen by snapshots taken without the mutex)
+			heap[i] = VerifTSSItem{Key: "<nil>", Qidx: -1}
+			continue
+		}
 		v := VerifTSSItem{Key: it.key, Qval: it.qval, Qidx: it.qidx}
 		for j := 0; j < it.len && j < len(it.buf); j++ {
 			v.Entries = append(v.Entries, VerifTSSEntry{it.buf[j].rxt, it.buf[j].txt})
@@ -118,4 +124,14 @@ func VerifRunNTSKEServerTLS(ctx context.Context, log *slog.Logger,
 func VerifNewNTSKEMsg(ctx context.Context, log *slog.Logger, localIP net.IP, localPort int,
 	data *ntske.Data, provider *ntske.Provider) (ntske.ExchangeMsg, error) {
 	return newNTSKEMsg(ctx, log, localIP, localPort, data, provider)
+}
+
+// VerifTSSMuHeld reports (and clears) a timestamp-store mutex left locked by a
+// goroutine that was unwound; used by the harness between runs.
+func VerifTSSMuHeld() bool {
+	if tssMu.TryLock() {
+		tssMu.Unlock()
+		return false
+	}
+	return true
 }
